@@ -8,6 +8,8 @@ use vh::runner::*;
 
 include!(concat!(env!("OUT_DIR"), "/extract_status.rs"));
 
+mod wincomm;
+
 #[allow(dead_code)]
 mod shim {
     #[derive(Clone, Debug, PartialEq, Eq, Hash, Default)]
@@ -535,5 +537,24 @@ static C20: PropDef = PropDef {
 fn main() {
     vh::interpose::init();
     let args: Vec<String> = std::env::args().collect();
+    // secondary stages for properties whose main check lives in `verif`
+    if args.get(1).map(|s| s.as_str()) == Some("stage") && args.get(2).map(|s| s.as_str()) == Some("wincomm") {
+        let prop = args.get(3).cloned().unwrap_or_else(|| "C02".into());
+        let tier = args.get(4).cloned().unwrap_or_else(|| "quick".into());
+        std::process::exit(wincomm::stage(&prop, &tier));
+    }
+    if args.get(1).map(|s| s.as_str()) == Some("replay") && matches!(args.get(2).map(|s| s.as_str()), Some("C02") | Some("C03")) {
+        let body: serde_json::Value = std::fs::read(&args[3]).ok().and_then(|b| serde_json::from_slice(&b).ok()).unwrap_or(serde_json::Value::Null);
+        match wincomm::replay(&args[2], &body["case"]) {
+            Ok(()) => {
+                println!("replay: case passes on this tree");
+                std::process::exit(0)
+            }
+            Err(f) => {
+                println!("VIOLATION property={} replay={}\n  signature: {}\n{}", args[2], args[3], f.signature, f.detail);
+                std::process::exit(1)
+            }
+        }
+    }
     std::process::exit(vh::cli::dispatch(&[&C20], &args));
 }
